@@ -1,1 +1,309 @@
-fn main() { println!("{}", std::any::type_name::<fclones::GroupConfig>()); }
+//! Engine B2: the REAL `group_files` / `rehash` pipeline of fclones under shuttle's scheduler.
+//!
+//! The library is compiled through a generated shadow manifest with
+//! `--cfg fclones_verif --cfg fclones_verif_shuttle`: the per-device threads, the hashing pools,
+//! the task-throttle semaphore, the open-file semaphore and the result channel are shuttle
+//! primitives, so their interleaving is decided by the seeded scheduler.  File reads, hashing and
+//! the directory walk stay real (opaque steps for the scheduler).
+//!
+//! usage: b2 run    --sched random|pct --seed S --iters N --out DIR --tree DIR [--scenario K]
+//!        b2 replay --file SCHEDULE --tree DIR --scenario K
+//! One JSON line with the outcome is printed.  Exit 0 = all schedules agree, 1 = failure.
+
+use std::collections::BTreeSet;
+use std::panic;
+use std::path::{Path as StdPath, PathBuf};
+use std::sync::atomic::{AtomicUsize, Ordering};
+use std::sync::{Arc, Mutex};
+
+use fclones::config::GroupConfig;
+use fclones::log::{Log, LogLevel, ProgressBarLength};
+use fclones::progress::{NoProgressBar, ProgressTracker};
+use fclones::{group_files, Path};
+
+struct QuietLog {
+    warnings: AtomicUsize,
+}
+
+impl Log for QuietLog {
+    fn progress_bar(&self, _msg: &str, _len: ProgressBarLength) -> Arc<dyn ProgressTracker> {
+        Arc::new(NoProgressBar)
+    }
+    fn log(&self, level: LogLevel, _msg: String) {
+        if let LogLevel::Warn = level {
+            self.warnings.fetch_add(1, Ordering::Relaxed);
+        }
+    }
+}
+
+static EXECUTIONS: AtomicUsize = AtomicUsize::new(0);
+
+/// scenario K -> (files to create, group options)
+struct Scenario {
+    files: Vec<(&'static str, Vec<u8>)>,
+    hard_links: Vec<(&'static str, &'static str)>,
+    threads: Vec<(&'static str, usize, usize)>,
+    unique: bool,
+    rf_over: Option<usize>,
+    two_devices: bool,
+}
+
+fn content(fam: u8, len: usize, flip: Option<usize>) -> Vec<u8> {
+    let mut v: Vec<u8> = (0..len).map(|i| (i as u8).wrapping_mul(31).wrapping_add(fam)).collect();
+    if let Some(o) = flip {
+        if o < len {
+            v[o] ^= 0x55;
+        }
+    }
+    v
+}
+
+fn scenario(k: usize) -> Scenario {
+    // sizes relative to the knob overrides MIN_PREFIX=16 MAX_PREFIX=64 BUF=32 SUFFIX_THRESHOLD=128
+    let mut files = vec![
+        ("d1/a", content(1, 300, None)),
+        ("d1/b", content(1, 300, None)),
+        ("d2/c", content(1, 300, None)),
+        ("d2/p", content(1, 300, Some(20))),   // differs in the prefix
+        ("d1/s", content(1, 300, Some(290))),  // differs in the suffix
+        ("d2/m", content(1, 300, Some(150))),  // differs in the middle
+        ("d1/x", content(2, 40, None)),
+        ("d2/y", content(2, 40, None)),
+        ("d2/u", content(3, 77, None)),
+    ];
+    if k % 2 == 1 {
+        files.push(("d2/z1", content(4, 300, None)));
+        files.push(("d1/z2", content(4, 300, None)));
+    }
+    let threads = match k % 4 {
+        0 => vec![("default", 1, 1)],
+        1 => vec![("default", 2, 2)],
+        2 => vec![("default", 3, 1)],
+        _ => vec![("default", 2, 3)],
+    };
+    Scenario {
+        files,
+        hard_links: vec![("d1/a", "d2/a_link")],
+        threads,
+        unique: k % 5 == 4,
+        rf_over: if k % 5 == 3 { Some(2) } else { None },
+        two_devices: k % 3 == 2,
+    }
+}
+
+fn build_tree(root: &StdPath, sc: &Scenario) {
+    let _ = std::fs::remove_dir_all(root);
+    for (p, data) in &sc.files {
+        let fp = root.join(p);
+        std::fs::create_dir_all(fp.parent().unwrap()).unwrap();
+        std::fs::write(&fp, data).unwrap();
+    }
+    for (a, b) in &sc.hard_links {
+        std::fs::hard_link(root.join(a), root.join(b)).unwrap();
+    }
+}
+
+/// byte-level truth: classes of identical files with >= 2 distinct inodes (default filter)
+fn truth(root: &StdPath, sc: &Scenario) -> BTreeSet<BTreeSet<PathBuf>> {
+    use std::collections::BTreeMap;
+    use std::os::unix::fs::MetadataExt;
+    let mut all: Vec<PathBuf> = sc.files.iter().map(|(p, _)| root.join(p)).collect();
+    for (_, b) in &sc.hard_links {
+        all.push(root.join(b));
+    }
+    let mut classes: BTreeMap<Vec<u8>, Vec<PathBuf>> = BTreeMap::new();
+    for p in all {
+        classes.entry(std::fs::read(&p).unwrap()).or_default().push(p);
+    }
+    let mut out = BTreeSet::new();
+    for (_, paths) in classes {
+        let inodes: BTreeSet<u64> = paths.iter().map(|p| std::fs::metadata(p).unwrap().ino()).collect();
+        let n = inodes.len();
+        let reported = if sc.unique {
+            n < 2
+        } else {
+            n > sc.rf_over.unwrap_or(1)
+        };
+        if reported {
+            out.insert(paths.into_iter().collect());
+        }
+    }
+    out
+}
+
+type Outcome = Vec<(u64, String, Vec<String>)>;
+
+fn run_once(root: &StdPath, sc: &Scenario) -> Outcome {
+    let log = QuietLog {
+        warnings: AtomicUsize::new(0),
+    };
+    let mut config = GroupConfig::default();
+    config.paths = vec![Path::from(root.join("d1")), Path::from(root.join("d2"))];
+    config.min_size = fclones::FileLen(1);
+    config.unique = sc.unique;
+    config.rf_over = sc.rf_over;
+    config.threads = sc
+        .threads
+        .iter()
+        .map(|(n, r, s)| {
+            (
+                std::ffi::OsString::from(*n),
+                fclones::config::Parallelism {
+                    random: *r,
+                    sequential: *s,
+                },
+            )
+        })
+        .collect();
+    let groups = group_files(&config, &log).expect("group_files failed");
+    groups
+        .iter()
+        .map(|g| {
+            (
+                g.file_len.0,
+                g.file_hash.to_string(),
+                g.files.iter().map(|f| f.path.to_escaped_string()).collect(),
+            )
+        })
+        .collect()
+}
+
+fn arg(args: &[String], name: &str, default: &str) -> String {
+    args.iter()
+        .position(|a| a == name)
+        .and_then(|i| args.get(i + 1).cloned())
+        .unwrap_or_else(|| default.to_string())
+}
+
+fn main() {
+    let args: Vec<String> = std::env::args().collect();
+    if args.len() < 2 {
+        eprintln!("usage: b2 run|replay ...");
+        std::process::exit(2);
+    }
+    let tree = PathBuf::from(arg(&args, "--tree", "/dev/shm/fclones-sim/b2-tree"));
+    let k: usize = arg(&args, "--scenario", "0").parse().unwrap();
+    let sc = scenario(k);
+    build_tree(&tree, &sc);
+    // knobs + pinned devices (the hooks read these only under --cfg fclones_verif)
+    std::env::set_var("FCLONES_VERIF_MIN_PREFIX", "16");
+    std::env::set_var("FCLONES_VERIF_MAX_PREFIX", "64");
+    std::env::set_var("FCLONES_VERIF_BUF_LEN", "32");
+    std::env::set_var("FCLONES_VERIF_SUFFIX_THRESHOLD", "128");
+    let devs = if sc.two_devices {
+        format!("/=ssd:simroot;{}=ssd:simdisk2", tree.join("d2").display())
+    } else {
+        "/=ssd:simroot".to_string()
+    };
+    std::env::set_var("FCLONES_VERIF_DEVICES", devs);
+    // the global rayon pool (walk, parallel sorts) has one real thread and never touches shuttle
+    rayon::ThreadPoolBuilder::new().num_threads(1).build_global().unwrap();
+
+    let expected = truth(&tree, &sc);
+    let reference: Arc<Mutex<Option<Outcome>>> = Arc::new(Mutex::new(None));
+    let tree2 = tree.clone();
+    let reference2 = reference.clone();
+    let body = Arc::new(move || {
+        EXECUTIONS.fetch_add(1, Ordering::Relaxed);
+        let sc = scenario(k);
+        let out = run_once(&tree2, &sc);
+        // C03: the partition equals the byte-level truth on every schedule
+        let got: BTreeSet<BTreeSet<PathBuf>> = out
+            .iter()
+            .map(|(_, _, files)| files.iter().map(PathBuf::from).collect())
+            .collect();
+        assert!(
+            got == expected,
+            "partition differs from the byte-level truth: got {:?} expected {:?}",
+            got,
+            expected
+        );
+        // C13: identical INCLUDING order across schedules
+        let mut r = reference2.lock().unwrap();
+        match &*r {
+            None => *r = Some(out),
+            Some(first) => assert!(
+                *first == out,
+                "result depends on the schedule: round-robin reference {:?} now {:?}",
+                first,
+                out
+            ),
+        }
+    });
+    let body = {
+        let b = body.clone();
+        move || b()
+    };
+
+    let mut cfg = shuttle::Config::new();
+    cfg.stack_size = 8 * 1024 * 1024;
+    cfg.max_steps = shuttle::MaxSteps::FailAfter(2_000_000);
+    cfg.silence_warnings = true;
+    let t0 = std::time::Instant::now();
+    // The reference result comes from one execution under a fixed round-robin schedule, in `run`
+    // and in `replay` alike, so that a replayed schedule is compared with the same reference.
+    {
+        let body = body.clone();
+        let mut c0 = shuttle::Config::new();
+        c0.stack_size = 8 * 1024 * 1024;
+        c0.silence_warnings = true;
+        // shuttle installs its panic hook once, with the persistence mode of the first runner
+        if args[1] == "run" {
+            c0.failure_persistence = shuttle::FailurePersistence::File(Some(PathBuf::from(arg(&args, "--out", "/tmp"))));
+        }
+        let r = panic::catch_unwind(panic::AssertUnwindSafe(move || {
+            shuttle::Runner::new(shuttle::scheduler::RoundRobinScheduler::new(1), c0).run(body);
+        }));
+        if r.is_err() {
+            println!("{{\"failed\": true, \"executions\": 1, \"scenario\": {}, \"groups\": 0, \"wall_s\": 0.0, \"message\": \"reference execution (round robin) failed: partition differs or deadlock\"}}", k);
+            std::process::exit(1);
+        }
+    }
+    let result = match args[1].as_str() {
+        "run" => {
+            let seed: u64 = arg(&args, "--seed", "1").parse().unwrap();
+            let iters: usize = arg(&args, "--iters", "200").parse().unwrap();
+            let out = arg(&args, "--out", "/tmp");
+            cfg.failure_persistence = shuttle::FailurePersistence::File(Some(PathBuf::from(&out)));
+            let sched = arg(&args, "--sched", "random");
+            let depth: usize = arg(&args, "--depth", "3").parse().unwrap();
+            panic::catch_unwind(panic::AssertUnwindSafe(move || match sched.as_str() {
+                "pct" => {
+                    let s = shuttle::scheduler::PctScheduler::new_from_seed(seed, depth, iters);
+                    shuttle::Runner::new(s, cfg).run(body);
+                }
+                _ => {
+                    let s = shuttle::scheduler::RandomScheduler::new_from_seed(seed, iters);
+                    shuttle::Runner::new(s, cfg).run(body);
+                }
+            }))
+        }
+        "replay" => {
+            let file = arg(&args, "--file", "");
+            panic::catch_unwind(panic::AssertUnwindSafe(move || shuttle::replay_from_file(body, &file)))
+        }
+        _ => std::process::exit(2),
+    };
+    let failed = result.is_err();
+    let msg = match &result {
+        Err(e) => e
+            .downcast_ref::<String>()
+            .cloned()
+            .or_else(|| e.downcast_ref::<&str>().map(|s| s.to_string()))
+            .unwrap_or_default(),
+        Ok(_) => String::new(),
+    };
+    let msg: String = msg.chars().filter(|c| *c != '"' && *c != '\\' && *c != '\n').take(600).collect();
+    let ngroups = reference.lock().map(|r| r.as_ref().map(|o| o.len()).unwrap_or(0)).unwrap_or(0);
+    println!(
+        "{{\"failed\": {}, \"executions\": {}, \"scenario\": {}, \"groups\": {}, \"wall_s\": {:.3}, \"message\": \"{}\"}}",
+        failed,
+        EXECUTIONS.load(Ordering::Relaxed),
+        k,
+        ngroups,
+        t0.elapsed().as_secs_f64(),
+        msg
+    );
+    let _ = std::fs::remove_dir_all(&tree);
+    std::process::exit(if failed { 1 } else { 0 });
+}
